@@ -491,10 +491,11 @@ func TestVerifC16Tab(t *testing.T) {
 			nops = 120 + r.Intn(80)
 			churn = false
 		}
-		if thorough && c%25 == 7 && c%50 == 7 {
-			capacity = []int{6000, 6144, 6145, 12000}[r.Intn(4)] // 8192 / 16384 slots
-			poolN = 100 + r.Intn(200)
-			nops = 150 + r.Intn(100)
+		if thorough && c%100 == 7 {
+			// 8192 / 16384 slots (the digest after every operation makes these the dearest cases: few and short)
+			capacity = []int{6000, 6144, 6145}[r.Intn(3)]
+			poolN = 100 + r.Intn(100)
+			nops = 60 + r.Intn(40)
 		}
 		tr.emit(vC16TabHistory(r, capacity, kind, nops, poolN, churn))
 	}
